@@ -1,7 +1,7 @@
 """Unit `global_cache`: GlobalCache<R> (cachelito-core/src/global_cache.rs) under the sequential projection
 (R1: locks erased, R2: receiver splitting) with the helper functions of utils.rs it calls."""
 from extract.rules import R, R4, R5, R1_TYPES
-from contracts.units.engine_common import (COMMON, SYNC_SPEC, wf_pre, store_pre, get_ensures, incr_ensures, evict_requires, evict_ensures, insert_ensures, CFG_FRAME, insertm_requires, insertm_ensures, memloop_spec, insert_result_ensures, MEM_HINTS)
+from contracts.units.engine_common import (COMMON, SYNC_SPEC, wf_pre, store_pre, get_ensures, incr_ensures, evict_requires, evict_ensures, insert_ensures, CFG_FRAME, insertm_requires, insertm_ensures, memloop_spec, insert_result_ensures, MEM_HINTS, mem_hints)
 from contracts.units import utils as U
 
 G = 'cachelito-core/src/global_cache.rs'
@@ -64,7 +64,7 @@ UNIT = dict(
                    ensures=[('front_evicted', 'successfully_evicted && evicted(m_in, o_in, map_write@, o@, o_in[0])')],
                    decreases='o@.len()'),
            },
-           hints=MEM_HINTS + [(('before_loop', 1), 'snapshot', 'let ghost m_in = map_write@; let ghost o_in = o@;')]),
+           hints=mem_hints(M, 'o') + [(('before_loop', 1), 'snapshot', 'let ghost m_in = map_write@; let ghost o_in = o@;')]),
         fn('clear', impl=IMPL_MEM, impl_rules=IMPL_RULES, ensures=[CFG_FRAME, ('empties_store_and_queue', ['C12', 'C04'], 'final(self).map@.len() == 0 && final(self).order@.len() == 0'), ('stats_frame', ['C15'], 'final(self).stats == old(self).stats')]),
         fn('insert_result', impl=r"^impl<T: Clone \+ Debug \+ 'static, E: Clone \+ Debug \+ 'static> GlobalCache<Result<T, E>>$", requires=store_pre(M), ensures=insert_result_ensures(M)),
         fn('insert_result_with_memory', impl=r"MemoryEstimator,? > GlobalCache<Result<T, E>>$", impl_rules=IMPL_RULES,
